@@ -5,6 +5,11 @@ import (
 	"crypto/sha256"
 	"encoding/json"
 	"fmt"
+	"strconv"
+	"strings"
+
+	paramproposal "github.com/cosmos/cosmos-sdk/x/params/types/proposal"
+	abci "github.com/tendermint/tendermint/abci/types"
 
 	sdk "github.com/cosmos/cosmos-sdk/types"
 	"github.com/wealdtech/go-merkletree/v2"
@@ -14,8 +19,66 @@ import (
 	storageutils "github.com/jackalLabs/canine-chain/v4/x/storage/utils"
 )
 
+// storageParams returns the storage parameters in force. The integer fields are read from the
+// params module's own query service (the subspace store, which is what governance writes), not
+// through the storage keeper: a keeper-side cache going stale must not fool the oracles.
 func (w *World) storageParams() storagetypes.Params {
-	return w.node().app.StorageKeeper.GetParams(w.Ctx())
+	if w.spCacheOK && w.spCacheVer == w.stateVer {
+		return w.spCache
+	}
+	p := w.storageParamsUncached()
+	w.spCache, w.spCacheVer, w.spCacheOK = p, w.stateVer, true
+	return p
+}
+
+func (w *World) storageParamsUncached() storagetypes.Params {
+	p := w.node().app.StorageKeeper.GetParams(w.Ctx())
+	truth := map[string]int64{}
+	for jsonName, key := range paramKeyOf["storage"] {
+		if v, ok := w.subspaceInt("storage", key); ok {
+			truth[jsonName] = v
+		}
+	}
+	q := p
+	if len(truth) > 0 && overlayJSON(&q, truth) {
+		if w.res != nil && w.res.Probes != nil {
+			w.res.Probes["params_read_from_subspace"]++
+		}
+		return q
+	}
+	return p
+}
+
+// subspaceInt reads one integer parameter through /cosmos.params.v1beta1.Query/Params.
+func (w *World) subspaceInt(subspace, key string) (int64, bool) {
+	h := w.node().app.GRPCQueryRouter().Route("/cosmos.params.v1beta1.Query/Params")
+	if h == nil {
+		return 0, false
+	}
+	req := paramproposal.QueryParamsRequest{Subspace: subspace, Key: key}
+	bz, err := req.Marshal()
+	if err != nil {
+		return 0, false
+	}
+	var out int64
+	ok := false
+	func() {
+		defer func() { _ = recover() }()
+		res, err := h(w.Ctx(), abci.RequestQuery{Data: bz})
+		if err != nil {
+			return
+		}
+		var qr paramproposal.QueryParamsResponse
+		if qr.Unmarshal(res.Value) != nil {
+			return
+		}
+		v := strings.Trim(qr.Param.Value, "\"")
+		n, perr := strconv.ParseInt(v, 10, 64)
+		if perr == nil {
+			out, ok = n, true
+		}
+	}()
+	return out, ok
 }
 
 // fileInst returns the file instance with its Merkle tree built for the chain's
